@@ -39,7 +39,8 @@ API_ITERATORS = ("get_node_iterator", "get_branch_iterator")
 
 
 def _is_private(name: str) -> bool:
-    return name.startswith("_") and not name.startswith("__")
+    from .model import is_helper_name
+    return is_helper_name(name)
 
 
 def needs_statement_inlining(d: ast.FunctionDef) -> bool:
